@@ -87,6 +87,11 @@ pub enum Call {
     Fin,
 }
 
+// comparison of op lists by their fields (does not rely on the crate's own PartialEq for DiffOp)
+pub fn same_ops(a: &[similar::DiffOp], b: &[similar::DiffOp]) -> bool {
+    ops_to_calls(a) == ops_to_calls(b)
+}
+
 pub fn fmt_calls(cs: &[Call]) -> String {
     if cs.is_empty() {
         return "-".into();
@@ -554,6 +559,24 @@ fn case_adapter(kv: &Kv) -> String {
     )
 }
 
+// edit cost of the raw scripts of Myers and of the crate's LCS algorithm on the same input (both must be minimal)
+fn case_costs(kv: &Kv) -> String {
+    let old: Vec<u64> = parse_list(kv["old"]);
+    let new: Vec<u64> = parse_list(kv["new"]);
+    let cost = |alg: similar::Algorithm| -> usize {
+        let mut h = similar::algorithms::Capture::new();
+        similar::algorithms::diff(alg, &mut h, &old[..], 0..old.len(), &new[..], 0..new.len()).unwrap();
+        h.ops()
+            .iter()
+            .map(|op| match op.as_tag_tuple() {
+                (similar::DiffTag::Equal, _, _) => 0,
+                (_, o, n) => o.len() + n.len(),
+            })
+            .sum()
+    };
+    format!("M={} L={}", cost(similar::Algorithm::Myers), cost(similar::Algorithm::Lcs))
+}
+
 fn case_group(kv: &Kv) -> String {
     let n: usize = kv["n"].parse().unwrap();
     let via = kv.get("via").copied().unwrap_or("fn");
@@ -663,7 +686,7 @@ fn case_iter(kv: &Kv) -> String {
             op.apply_to_hook(&mut r).unwrap();
         }
     }
-    let mut ref_same = cap.ops() == cap2.ops();
+    let mut ref_same = same_ops(cap.ops(), cap2.ops());
     // other ways through the same iterators: nth / skip / step_by after some items were consumed, size_hint bounds
     for op in &ops {
         let full: Vec<_> = op.iter_changes(&old[..], &new[..]).map(|c| (c.tag(), c.old_index(), c.new_index(), c.value())).collect();
@@ -743,6 +766,7 @@ fn case_iter(kv: &Kv) -> String {
 fn run_case(line: &str) -> String {
     let (comp, kv) = parse_kv(line);
     match comp.as_str() {
+        "costs" => case_costs(&kv),
         "raw" => case_raw(&kv),
         "capture" => case_capture(&kv),
         "adapter" => case_adapter(&kv),
